@@ -5,14 +5,14 @@ CONSTANTS
   Fds = {1, 2}
   MaxConn = 2
   Rogue = {2}
-  Programs = {1, 4}
+  Programs = {2, 5}
   SndCap = 150
   EventsCap = 4
   LimitN = 5
-  HasKill = TRUE
-  AllowKill = TRUE
-  AllowFds = FALSE
+  HasKill = FALSE
+  AllowKill = FALSE
+  AllowFds = TRUE
   AllowFlush = FALSE
   AtomicPoll = TRUE
-INVARIANTS PollOK CapacityOK TokensOK InterestsOK NoStall QuietNotReady ReleasableReady Refused503 KillWins KillReady Witnesses
+INVARIANTS PollOK CapacityOK TokensOK InterestsOK FilesOK NoStall QuietNotReady Witnesses
 CHECK_DEADLOCK FALSE
